@@ -87,6 +87,12 @@ def extensions(sid):
     else:
         query = ""
 
+    if sid.count(":"):  # sid is a uri: the "type:" prefix is not part of the (first, maybe last) value
+        _type, sid = sid.split(":", 1)
+        _type += ":"
+    else:
+        _type = ""
+
     # main sid
     parts = sid.split(sip)
     newsid = parts[:-1]  # SMELL: this might not be an extension at all. Still works.
@@ -100,7 +106,7 @@ def extensions(sid):
                 query_dict[key] = handle_extension(query_dict.get(key))
         query = query_helper.to_string(query_dict)
 
-    return sip.join(newsid) + ("?" + query if query else "")
+    return _type + sip.join(newsid) + ("?" + query if query else "")
 
 
 if __name__ == "__main__":
